@@ -6,6 +6,7 @@ D=/verif/seeded/$N
 git -C /repo apply $D/patch.diff || exit 2
 P=$(echo $N | cut -d- -f1)
 [ $# -eq 0 ] && set -- $P
+export VERIF_OUT_DIR=/dev/shm/try_out
 for C in "$@"; do
   /verif/check $C --tier quick > /dev/shm/try_$N_$C.txt 2>&1; E=$?
   echo "== $N vs $C: exit=$E  $(grep -c '^VIOLATION' /dev/shm/try_$N_$C.txt) violation line(s)"
